@@ -593,6 +593,28 @@ def gt_pop(ctx: Ctx) -> RuleResult:
                           "the computation reads each node's OWN priority from the table it then overwrites with the compound value; on a "
                           "table that already holds compound values (e.g. one shared with the DAG's graph) it compounds a second time, "
                           "in place, for every later run", norm_src(call))
+    # a sparse table whose default is None (declared `defaultdict(lambda: None)`) is never INDEXED for reading: `table[key]` on a
+    # defaultdict inserts the default for every key it is asked about, and the readers that iterate the table's values (the set of all
+    # tags, built while the 'node or tag not found' error is formatted) do not expect None entries
+    init = g.methods.get("__init__")
+    sparse = set()
+    if init is not None:
+        for n in iter_own_nodes(init.node):
+            tg = n.targets[0] if isinstance(n, ast.Assign) else (n.target if isinstance(n, ast.AnnAssign) else None)
+            v = getattr(n, "value", None)
+            if isinstance(tg, ast.Attribute) and dotted(tg.value) == "self" and isinstance(v, ast.Call) and (dotted(v.func) or "").endswith("defaultdict") \
+                    and v.args and isinstance(v.args[0], ast.Lambda) and isinstance(v.args[0].body, ast.Constant) and v.args[0].body.value is None:
+                sparse.add(tg.attr)
+    for tname in sorted(sparse):
+        reads = [(f2, n) for f2 in ctx.funcs() if not f2.module.name.endswith("_twzsa_control") for n in iter_own_nodes(f2.node)
+                 if isinstance(n, ast.Subscript) and isinstance(n.ctx, ast.Load) and isinstance(n.value, ast.Attribute) and n.value.attr == tname
+                 and ctx.T.is_instance(ctx.type_of(f2, n.value.value) or ("any",), g.qualname, maybe=False)]
+        r.ob(not reads, {"sparse table": tname, "indexed reads": [norm_src(n)[:50] for _, n in reads]})
+        for f2, n in reads[:1]:
+            r.violate(f"{f2.short}: the sparse table '{tname}' (default None) is indexed for reading ({norm_src(n)[:50]})", f2.loc(n),
+                      "every key looked up is inserted with the value None; the next reader that walks the table's values - the set of all tags, "
+                      "computed to word the 'alias not found' ValueError - fails with TypeError: an unknown alias no longer raises ValueError",
+                      norm_src(n)[:80])
     return r
 
 
@@ -603,6 +625,21 @@ def gt_formula(ctx: Ctx) -> RuleResult:
     f = g.methods.get("assign_compound_priority")
     r.require(f is not None, "assign_compound_priority not found")
     fn = f.node
+    # the accumulation is unconditional: no way out of the function that depends on the priorities (a "nothing to do" shortcut keyed on
+    # their sum / on all of them being zero is wrong as soon as values of both signs cancel)
+    for rt in [n for n in iter_own_nodes(fn) if isinstance(n, ast.Return)]:
+        from .val import reach_conditions
+
+        conds = reach_conditions(fn, rt) or []
+        dep = [c for c, _ in conds if any(isinstance(x, ast.Call) and dotted(x.func) in ("sum", "any", "all", "max", "min") for x in ast.walk(c))
+               or any(isinstance(x, ast.Attribute) and x.attr in ("compound_priority", "priority") for x in ast.walk(c))
+               or any(isinstance(x, ast.Name) and "prior" in x.id for x in ast.walk(c))]
+        r.ob(not dep, {"early exit of the accumulation under": [norm_src(c)[:60] for c, _ in conds]})
+        if dep:
+            r.violate("DiGraphEx.assign_compound_priority: the accumulation is skipped when " + norm_src(dep[0])[:60], f.loc(rt),
+                      "a shortcut keyed on an aggregate of the priorities (their sum, any/all of them) also fires for vectors it was not meant "
+                      "for (+3, +1, -4 sum to 0): every compound priority then stays the node's own priority and the start order changes",
+                      norm_src(dep[0]))
     # aliases / snapshots of the compound table
     alias: Dict[str, str] = {}  # name -> 'alias' | 'snapshot'
     for n in iter_own_nodes(fn):
@@ -1898,6 +1935,27 @@ def gt_aliasnorm(ctx: Ctx) -> RuleResult:
                               "users may name nodes by reference, tag or id; a list that is not passed through the alias resolver is "
                               "compared with node ids as is: tags and node references select nothing or raise", norm_src(call))
     r.require(n >= 6, f"only {n} selection arguments reaching make_subgraph")
+    # ... and reaches it WHOLE: between the user's list and the closure computed by make_subgraph no element is filtered out (a target
+    # that is itself not executed - a debug node with the flag off - still demands its ancestors; they are production nodes)
+    for f in ctx.funcs():
+        if f.module.name.endswith("_twzsa_control") or f.cls is g:
+            continue
+        for x in iter_own_nodes(f.node):
+            if not (isinstance(x, ast.Assign) and len(x.targets) == 1):
+                continue
+            d = dotted(x.targets[0]) or ""
+            if d.split(".")[-1] not in PARALLEL:
+                continue
+            v = x.value
+            if isinstance(v, ast.Call) and dotted(v.func) in ("list", "set", "tuple") and len(v.args) == 1:
+                v = v.args[0]
+            if isinstance(v, (ast.ListComp, ast.SetComp, ast.GeneratorExp)) and len(v.generators) == 1 and v.generators[0].ifs \
+                    and dotted(v.generators[0].iter) == d and dotted(v.elt) == dotted(v.generators[0].target):
+                r.ob(False, {"in": f.short, "selection filtered": norm_src(x)[:100]})
+                r.violate(f"{f.short}: the selection list '{d.split('.')[-1]}' is filtered before it reaches make_subgraph ({norm_src(v.generators[0].ifs[0])[:50]})",
+                          f.loc(x), "make_subgraph turns the list into a closure (ancestors of the targets, descendants of the roots / of the "
+                          "exclusions): an element removed beforehand takes its whole closure with it - production ancestors of a debug "
+                          "target no longer run with the flag off, and the returned values differ between the two modes", norm_src(x)[:120])
     # resolution is not idempotent (a tag wins over an id of the same value): what was resolved is never resolved again
     RES = ("get_multiple_nodes_aliases", "alias_to_ids")
     resolved_fields: Dict[str, Set[str]] = {}
